@@ -417,6 +417,24 @@ def call_method(it, recv, name, args, kw):
                 d = ctx.mutate(recv)
                 d.keys, d.vals = [], []
                 return None
+            if name == "pop":
+                for i, (k, v) in enumerate(zip(o.keys, o.vals)):
+                    if ctx.branch(ops.values_eq(it, k, args[0])):
+                        d = ctx.mutate(recv)
+                        del d.keys[i]
+                        del d.vals[i]
+                        return v
+                if len(args) > 1:
+                    return args[1]
+                raise PyRaise("KeyError", "dict.pop")
+            if name == "setdefault":
+                for k, v in zip(o.keys, o.vals):
+                    if ctx.branch(ops.values_eq(it, k, args[0])):
+                        return v
+                d = ctx.mutate(recv)
+                d.keys.append(args[0])
+                d.vals.append(args[1] if len(args) > 1 else None)
+                return d.vals[-1]
             raise Unsupported("dict." + name)
         if isinstance(o, HSet):
             if name == "add":
@@ -424,6 +442,17 @@ def call_method(it, recv, name, args, kw):
                     if ctx.branch(ops.values_eq(it, x, args[0])):
                         return None
                 ctx.mutate(recv).items.append(args[0])
+                return None
+            if name == "clear":
+                del ctx.mutate(recv).items[:]
+                return None
+            if name == "discard" or name == "remove":
+                for i, x in enumerate(o.items):
+                    if ctx.branch(ops.values_eq(it, x, args[0])):
+                        del ctx.mutate(recv).items[i]
+                        return None
+                if name == "remove":
+                    raise PyRaise("KeyError", "set.remove")
                 return None
             raise Unsupported("set." + name)
     t = ops.bytes_term(it, recv)
